@@ -34,7 +34,8 @@ REQUIRED_THEOREMS = ['unitmap_lookup', 'unitmap_listed', 'key_assembly_suffix', 
                      'nwu_suffix_span', 'nwu_prefix_span', 'nwu_result_text_is_slice', 'nwu_result_text_is_slice_full',
                      'nwu_relative_number_start', 'extract_then_parse_unit', 'select_no_conflict_identity',
                      'select_results_from_input', 'select_returns_partial', 'select_misaligned_raises',
-                     'extractPre_lockstep_returns',
+                     'extractPre_lockstep_returns', 'filter_ambiguity_only_removes', 'filter_ambiguity_preserves_pairwise',
+                     'filter_ambiguity_entry', 'filter_ambiguity_identity',
                      'nwu_prefix_only_result', 'nwu_prefix_only_suppressed_witness', 'merged_result_text_is_slice']
 RULE = ('exhaustive over every (culture, model, prefix|suffix, unit, spelling) row of the tables wired into the registered '
         'NumberWithUnit models (first extractor/parser pair of each model) × numerals {7} (quick) or {7, 1,234, 0.5 in the '
@@ -46,8 +47,9 @@ ASSUMPTIONS = ['NumberWithUnitExtractor.extract / _extract_separate_units / _sel
                '(RTV.Model.UnitExtract) as a function of their inputs from un-modelled parts, which are PARAMETERS of the '
                'model and universally quantified in the theorems: StringMatcher results (the matcher itself is C16), the '
                'number extractor\'s results, the matches of non_unit_regex / separate_regex / '
-               'ambiguous_unit_number_multiplier_regex / half_unit_regex, the keep-masks of the two _filter_ambiguity '
-               'calls; the correspondence records them on every replayed call',
+               'ambiguous_unit_number_multiplier_regex / half_unit_regex, and for _filter_ambiguity (modelled) the outcomes of '
+               'its key / value / single-char-unit regexes per result text; the correspondence records them on every '
+               'replayed call',
                'BaseMergedUnitExtractor grouping (__merge_pure_number / __merged_compound_units) is modelled as span '
                'arithmetic with the connector-regex test per gap as a parameter (theorem: merged_result_text_is_slice)',
                'str.lower is modelled per code point (final-sigma rule not modelled)']
